@@ -593,14 +593,15 @@ func ruleProvPlan(c *Ctx, r *Rep) {
 	cfg := cfgO[0]
 	r.Check(strings.Contains(cfg, "validateAndMerge(") || strings.Contains(cfg, "Merge("), "decision-on-merged-config|"+fk, c.Pos(decCall.Pos()), "the decision sees the profile-merged configuration", cfg)
 	entity := pv.Origins(decCall.Call.Args[2])
-	// the propagation lookup
+	// the set of planned aliases: looked up by the entity's issuer, extended by the entity's own alias (what is done with
+	// the answers is PLAN-PATHS' business)
 	var lookup *ssa.Lookup
 	var update *ssa.MapUpdate
 	for _, b := range plan.Blocks {
 		for _, ins := range b.Instrs {
 			switch x := ins.(type) {
 			case *ssa.Lookup:
-				if _, isMap := x.X.Type().Underlying().(*types.Map); isMap && x.CommaOk {
+				if _, isMap := x.X.Type().Underlying().(*types.Map); isMap {
 					lookup = x
 				}
 			case *ssa.MapUpdate:
@@ -627,39 +628,6 @@ func ruleProvPlan(c *Ctx, r *Rep) {
 	if appendCall == nil {
 		r.Bad("change-append|"+fk, c.FnPos(plan), "changes are appended to the change list", "no append")
 		return
-	}
-	r.Check(instrDominates(update, appendCall), "insert-before-append|"+fk, c.Pos(appendCall.Pos()), "on every path that plans a change the alias was inserted into the propagation set (so the entity's subjects are planned too)", sprintf("insertion dominates append: %v", instrDominates(update, appendCall)))
-	// the condition under which the change is appended: lookup ok OR decision
-	a := &atomizer{c: c, pv: pv, fn: plan}
-	var updIf *ssa.If
-	for _, g := range guardsOf(appendCall.Block()) {
-		if _, isPhi := g.Cond.(*ssa.Phi); isPhi {
-			updIf = g.If
-			phi := g.Cond.(*ssa.Phi)
-			okPhi := len(phi.Edges) == 2
-			sawLookup, sawDecision := false, false
-			for i, e := range phi.Edges {
-				if k, isK := e.(*ssa.Const); isK && constBool(k) == g.Truth {
-					// constant edge: must come from the lookup-ok branch
-					for _, gg := range guardsOf(phi.Block().Preds[i]) {
-						if ex, isEx := gg.Cond.(*ssa.Extract); isEx && ex.Tuple == ssa.Value(lookup) && gg.Truth {
-							sawLookup = true
-						}
-					}
-					if ex, isEx := lastIfCond(phi.Block().Preds[i]).(*ssa.Extract); isEx && ex.Tuple == ssa.Value(lookup) {
-						sawLookup = true
-					}
-				} else if e == ssa.Value(decCall) {
-					sawDecision = true
-				}
-			}
-			r.Check(okPhi && sawLookup && sawDecision, "update-condition|"+fk, c.Pos(appendCall.Pos()), "update = issuer planned (lookup ok) OR the decision function says so", sprintf("lookup edge %v, decision edge %v", sawLookup, sawDecision))
-		}
-	}
-	if updIf == nil {
-		// alternative shape: direct disjunction
-		d, _ := a.pathsDNF(plan.Blocks[0], appendCall.Block(), 64)
-		r.Undecided("shape:update-condition|"+fk, c.Pos(appendCall.Pos()), "the update condition is not a two-way choice between the lookup and the decision: "+dnfString(d))
 	}
 	// the appended change: Alias = entity, EffectiveConfig = *merged (wherever the value is assembled)
 	var appended ssa.Value
